@@ -1,15 +1,25 @@
 package hist
 
 import (
+	"context"
+	"fmt"
+	"sync"
+	"sync/atomic"
 	"testing"
+	"time"
+
+	"github.com/godaddy/asherah/go/appencryption/pkg/crypto/aead"
 
 	"verif/harness/ev"
+	"verif/harness/probe"
+	"verif/harness/world"
 )
 
 func TestC03(t *testing.T) {
 	r := ev.Start("C03", "exploration")
 	r.Rule("seeded random histories with debug logging on; the AEAD/KMS/metastore/secret-factory monitors feed an online checker that (a) keeps the set of (key,nonce) pairs and of nonces duplicate-free, (b) derives key roles from provenance (SK = seen by the KMS, IK = wrapped/unwrapped under an SK, DRK = CreateRandom secret of the current call) and types every AEAD.Encrypt against payload<DRK<IK(partition)<SK, (c) scans every data row record, stored key record, KMS output and debug log line for every known plaintext key and payload (raw, base64, hex). A history is distinct+non-trivial when it rotated a key or saw a revocation.")
 	r.Assume("a repeated 96-bit random nonce is treated as a violation (probability < 1e-15 over the events observed)", "StaticKMS's internal use of the AEAD is not part of the SDK's envelope and is not monitored")
+	concurrentNonces(t, r)
 	runMany(t, r, ev.Pick(40, 150), Params{Oracles: OC03, Steps: ev.Pick(300, 2000), MaxFacts: 3, ClockBias: 6, RevokeBias: 4, Debug: true, Parts: []string{"p0", "p1", "p2", "user_42", "üñí"}}, 3)
 	r.Finish(t)
 }
@@ -31,4 +41,75 @@ func TestC05(t *testing.T) {
 	runMany(t, r, ev.Pick(150, 3000), Params{Oracles: OC05 | OC01, Steps: ev.Pick(120, 400), MaxFacts: 3, ClockBias: 30, RevokeBias: 25, Parts: []string{"p0", "p1", "p2"}, NoCacheFrac: 10, LatencyPct: 6}, 5)
 	matrixC05(t, r)
 	r.Finish(t)
+}
+
+
+// concurrentNonces: many goroutines encrypt through sessions of one factory at once (real goroutines, no bubble);
+// the AEAD monitor keeps the set of (key, nonce) pairs and of nonces: a nonce source that is not safe for concurrent
+// use shows up as repeats.
+func concurrentNonces(t *testing.T, r *ev.Run) {
+	w := world.New("memguard")
+	defer w.Close()
+	w.MS.Drop, w.AEAD.Drop = true, true
+	w.Led.NoHash = true
+	f := w.Factory(world.Default(24*time.Hour, time.Hour, time.Minute), "svc", "prod")
+	defer f.Close()
+	// (a) the SDK's AEAD driven directly by 16 goroutines with one key (cheap, so many calls)
+	{
+		a := probe.NewAEAD(aead.NewAES256GCM())
+		a.Drop = true
+		key := make([]byte, 32)
+		n := ev.Pick(25000, 400000)
+		var wg sync.WaitGroup
+		for g := 0; g < 16; g++ {
+			wg.Add(1)
+			go func() {
+				defer wg.Done()
+				pl := []byte("x")
+				for i := 0; i < n; i++ {
+					if _, err := a.Encrypt(pl, key); err != nil {
+						return
+					}
+				}
+			}()
+		}
+		wg.Wait()
+		r.Count("concurrent_aead_level_encrypts", int64(16*n))
+		if a.Repeats > 0 {
+			r.Violation("c03-key-nonce-pair-repeated-concurrently", fmt.Sprintf("AEAD level: %d of %d concurrent encryptions under one key reused a nonce", a.Repeats, 16*n), nil)
+		}
+	}
+	// (b) through the public API
+	per := ev.Pick(800, 40000)
+	var wg sync.WaitGroup
+	var failed atomic.Int64
+	for g := 0; g < 16; g++ {
+		g := g
+		wg.Add(1)
+		go func() {
+			defer wg.Done()
+			s, err := f.GetSession(fmt.Sprintf("part%d", g%2)) // two partitions: many writers per IK
+			if err != nil {
+				failed.Add(1)
+				return
+			}
+			defer s.Close()
+			pl := []byte("concurrent payload")
+			for i := 0; i < per; i++ {
+				if _, err := s.Encrypt(context.Background(), pl); err != nil {
+					failed.Add(1)
+				}
+			}
+		}()
+	}
+	wg.Wait()
+	r.Eval(1)
+	r.Count("concurrent_encrypts", int64(16*per))
+	r.Count("concurrent_aead_pairs", int64(w.AEAD.PairCount()))
+	if n := failed.Load(); n > 0 {
+		r.Violation("c03-concurrent-encrypt-failed", fmt.Sprintf("%d concurrent encrypts failed", n), nil)
+	}
+	if w.AEAD.Repeats > 0 {
+		r.Violation("c03-key-nonce-pair-repeated-concurrently", fmt.Sprintf("%d of %d concurrent AEAD encryptions reused a (key, nonce) pair", w.AEAD.Repeats, 2*16*per), nil)
+	}
 }
